@@ -75,6 +75,7 @@ def gen_cases(tier, seed):
     # reduced precision + stiffness: in a float32 run a stage solve is still to be accepted only when the stage equations hold to the
     # stated solver tolerance (h*|df/dy| up to 1e5 turns a slope rounded to float32 into a residual far above it)
     small = [n for n in impl if M[n]["stages"] <= 3]
+    rng_keep, rng = rng, rng_for(204, seed)      # (own stream: the reduced-precision cases below keep the random numbers they always had)
     for r in range(80 if tier == "quick" else 500):
         # the library's own controller in place, a SMALL solution and rtol >> atol: a solve the step routine flags as unconverged stays unconverged
         # whatever a looser criterion elsewhere thinks of it
@@ -84,6 +85,12 @@ def gen_cases(tier, seed):
         cases.append(dict(kind="stiff32", method=name, dtype="float64", lam=float(10 ** rng.uniform(2, 6)), h=float(rng.choice([-1, 1])) * float(rng.choice([0.05, 0.1, 0.5, 2.0])),
                           offset=float(rng.choice([0.0, 0.0, 0.5, 2.0])), tol=0.0, sc=float(rng.choice([1e-3, 1e-5])), rtol=float(rng.choice([1e-3, 1e-4, 1e-6])),
                           atol=float(rng.choice([1e-12, 1e-13, 1e-14])), t0=float(rng.uniform(-1, 1)), pseed=int(rng.integers(1 << 30)), cost=3))
+    # ... and the same regime as a seed-independent core battery (every implicit scheme of <= 3 stages and the adaptive ones, both signs of h)
+    for name in [n for n in impl if M[n]["stages"] <= 3] + ["LobattoIIIC4"]:
+        for (lam_, sc_, off_, rt_, at_, h_) in ((1e6, 1e-3, 0.0, 1e-4, 1e-13, 0.5), (1e6, 1e-3, 2.0, 1e-4, 1e-13, -2.0), (1e4, 1e-3, 0.0, 1e-3, 1e-12, 2.0), (1e6, 1e-5, 0.0, 1e-3, 1e-12, 0.5),
+                                                (1e2, 1e-3, 0.5, 1e-6, 1e-14, 0.1), (1e6, 1e-3, 2.0, 1e-6, 1e-14, 2.0)):
+            cases.append(dict(kind="stiff32", method=name, dtype="float64", lam=lam_, h=h_, offset=off_, tol=0.0, sc=sc_, rtol=rt_, atol=at_, t0=0.3, pseed=7, cost=3))
+    rng = rng_keep
     for r in range(90 if tier == "quick" else 600):
         name = small[r % len(small)]
         cases.append(dict(kind="stiff32", method=name, dtype="float32" if r % 5 else "float64", lam=float(10 ** rng.uniform(3, 5.5)), h=float(rng.choice([-1, 1])) * float(rng.choice([0.25, 0.1, 0.5])),
@@ -260,6 +267,10 @@ def _run_stiff32(spec):
     b = np.asarray(info["cls"].tableau_final, dtype=np.longdouble)[0, 1:]
     Kst = np.asarray(intg.stage_values, dtype=np.longdouble)
     c_run = np.asarray(intg.tableau_intermediate)[:, 0]          # abscissae in the precision of the integrator (stage times as it forms them)
+    # ... and the stage coefficients as the integrator of this run holds them (float32 in a float32 run): eps32*|dT|*sum|a_ij k_j| of difference to the
+    # class tableau is turned into lam times as much in the residual by the stiff part (seen once heavily shortened steps with large slopes were no
+    # longer refused wholesale, fix 41c3afd); that the held coefficients are the method's to rounding is C01's subject
+    A = np.asarray(intg.tableau_intermediate, dtype=np.longdouble)
     y0l, dTl = y0.astype(np.longdouble), np.longdouble(dT)
     resid = 0.0
     for i in range(A.shape[0]):
